@@ -394,16 +394,14 @@ void h_##fn(void) \
 H_BITOP(register_bit_set)
 H_BITOP(register_bit_clear)
 
-/* sanitise: a table of 0..RT_SAN_EMAX registers in one or two areas, every
+/* sanitise: a table of 0..RT_SAN_EMAX registers in one area, every
  * type, constraint kind (no always-fail), bound, default, flag word and --
  * the point -- ARBITRARY storage content; g_reg is an arbitrary handle. */
 RegisterHandle g_reg;
 
 #define RT_SAN_ENTRY(i, pfx) \
   if ((i) < in_entries) { \
-    IN(_Bool, pfx##_in_b) \
-    RegisterArea *ea = pfx##_in_b ? b : area_a; \
-    RT_ENTRY(ent, ea, pfx) \
+    RT_ENTRY(ent, area_a, pfx) \
     ASSUME(pfx##_check != REGV_TYPE_FAIL); \
     t->entry[i] = ent; \
   }
@@ -413,14 +411,12 @@ void h_register_sanitise(void)
   GHOST_HAVOC();
   IN(uint16_t, in_flags) IN(uint32_t, in_entries) IN(uint16_t, in_areas) IN(uint32_t, in_reg)
   IN(uint8_t, in_wr_verdict) IN(uint8_t, in_rd_verdict) IN(uint32_t, in_wr_address) IN(uint32_t, in_rd_address)
-  IN(_Bool, in_cell_in_b)
   st_wr_verdict = in_wr_verdict; st_rd_verdict = in_rd_verdict;
   st_wr_address = in_wr_address; st_rd_address = in_rd_address;
   RT_NATIVE_SEED()
   ASSUME(in_entries <= RT_SAN_EMAX);
-  RegisterArea *area_a, *b;
+  RegisterArea *area_a;
   { RT_AREA(a, in_a) area_a = a; }
-  { RT_AREA(a, in_b) b = a; }
   RT_ENTRY_BLOCK(in_entry_block, in_entries)
   RegisterTable tab; RegisterTable *t = &tab;
   t->flags = in_flags; t->areas = in_areas; t->area = area_a; t->entries = in_entries; t->entry = in_entry_block;
@@ -438,7 +434,7 @@ void h_register_sanitise(void)
   }
   g_reg = in_reg;
   g_old_bits = (RT_INIT(t) && g_reg < t->entries) ? rt_bits(t, g_reg) : 0u;
-  g_cell = (in_cell_in_b && g_k < b->size) ? &b->mem[g_k] : ((g_k < area_a->size) ? &area_a->mem[g_k] : &rt_elsewhere);
+  g_cell = (g_k < area_a->size) ? &area_a->mem[g_k] : &rt_elsewhere;
   register_sanitise(t);
   VERIF_CANARY();
 }
